@@ -56,6 +56,9 @@ func Shrink(p *Plan) []any {
 	if c.ReusePort {
 		try(func(q *Plan) { q.Cfg.ReusePort = false })
 	}
+	if c.Listeners != 0 {
+		try(func(q *Plan) { q.Cfg.Listeners = 0 })
+	}
 	if c.FdBase != 0 {
 		try(func(q *Plan) { q.Cfg.FdBase = 0 })
 	}
